@@ -22,6 +22,8 @@ ASSUMPTIONS = [
     "non-preemptive ones (the full enumeration for two wakers exceeds 4x10^5 schedules and an hour)",
     "schedules are enumerated exhaustively by DFS within these bounds; data (state words, counters) is symbolic and "
     "decided by z3",
+    "layer 2 also covers the external-loop form of a same-thread wake: while the runtime thread waits on the driver fd inside a "
+    "foreign event loop, other code on that thread wakes a task through Local::schedule (interpreted), which must notify the driver",
     "outside: block_on's own loop skeleton, compio-compat's event loops, crossbeam's ArrayQueue internals, "
     "queue sizes > 2, > 2 wakers, weak memory",
 ]
@@ -70,14 +72,14 @@ class Plan:
             return st, fails
         return (name, body, "custom")
 
-    def _exec_check(self, n, cap, iters, same, pb=None):
+    def _exec_check(self, n, cap, iters, same, pb=None, nl=0):
         from explore import Stats, Failure
-        name = "exec.remote%d.cap%d.i%d.%s%s" % (n, cap, iters, "same" if same else "distinct",
-                                                 "" if pb is None else ".preempt%d" % pb)
+        name = "exec.remote%d%s.cap%d.i%d.%s%s" % (n, "+local" if nl else "", cap, iters, "same" if same else "distinct",
+                                                   "" if pb is None else ".preempt%d" % pb)
 
         def body(sd):
             t0 = time.time()
-            np_, steps, q, bad = self.me.explore_schedules(self.ex, n, cap, iters, same, seed=sd, preempt_bound=pb)
+            np_, steps, q, bad = self.me.explore_schedules(self.ex, n, cap, iters, same, seed=sd, preempt_bound=pb, n_local=nl)
             st = Stats()
             st.paths, st.queries, st.obligations, st.discharged = np_, steps + q, np_, np_ - (1 if bad else 0)
             st.solver_s = time.time() - t0
@@ -102,6 +104,9 @@ class Plan:
         cs.append(self._exec_check(1, 1, 2, True))
         cs.append(self._exec_check(2, 1, 2, True, 2))
         cs.append(self._exec_check(2, 1, 2, False, 2))
+        # external-loop mode: a same-thread wake from the foreign loop while compio waits on its fd (Local::schedule)
+        cs.append(self._exec_check(0, 1, 2, True, None, 1))
+        cs.append(self._exec_check(1, 1, 2, True, 2, 1))
         if tier == "thorough":
             cs.append(self._exec_check(2, 2, 2, True, 3))
             cs.append(self._exec_check(2, 1, 2, True, 3))
